@@ -5,6 +5,13 @@
  * hwrap.h counts and fails only allocations made while hw_depth > 0, i.e. by library code; callbacks
  * clear the flag.  The clock is the harness's (monoclock_get below) and poll() reports nothing ready.
  * Protocol: see lean/Percival/Driver/Af.lean.
+ *
+ * -DHC_BLACKBOX (used when the white-box build no longer compiles, e.g. after a private member or static was
+ * renamed): the six .c files are compiled separately and only ptrheap.h / events.h are used.  The same L1 part is
+ * printed and no L2 part (the `| n=` of `end` is the harness's own request counter and stays).  The exit handlers
+ * the library registers with atexit() (pools, events_timer_shutdown, events_network_shutdown) are recorded by the
+ * wrapper and run by `end` in reverse order, as exit() would; the pools and `minq` cannot be put back to their
+ * load-time state, so every case gets its own process (bb_fresh).
  */
 #include <poll.h>
 #include <sys/time.h>
@@ -12,12 +19,19 @@
 #include "hcommon.h"
 #include "hwrap.h"
 
+#ifdef HC_BLACKBOX
+#include <errno.h>
+
+#include "events.h"
+#include "ptrheap.h"
+#else
 #include "elasticarray.c"
 #include "ptrheap.c"
 #include "events.c"
 #include "events_immediate.c"
 #include "events_timer.c"
 #include "events_network.c"
+#endif
 
 /* ------------------------------------------------------------------ replaced environment */
 static long long now_us = 1000000;
@@ -58,6 +72,23 @@ hcompar(void * cookie, const void * x, const void * y)
 	return ((a > b) - (a < b));
 }
 
+#ifdef HC_BLACKBOX
+#define h_l2()		((void)0)
+#define ev_l2()		((void)0)
+
+/* exit handlers registered by library code, in order of registration; each runs once */
+#define MAXH 64
+static void (* handlers[MAXH])(void);
+static int nhandlers = 0;
+
+static void
+record_handler(void (* fn)(void))
+{
+
+	if (nhandlers < MAXH)
+		handlers[nhandlers++] = fn;
+}
+#else
 static void
 h_l2(void)
 {
@@ -72,6 +103,7 @@ h_l2(void)
 	printf(" hal=%zu live=%ld ", H ? ((struct elasticarray *)H->elems)->alloc : (size_t)0, hw_live);
 	hw_print_req();
 }
+#endif
 
 /* ------------------------------------------------------------------ events */
 static size_t ran[MAXID];
@@ -95,6 +127,7 @@ static void * tmcookie[MAXID];
 #define MAXFD 64
 static char netreg[MAXFD][2];
 
+#ifndef HC_BLACKBOX
 struct tq_mirror { struct ptrheap * H; };
 struct tqrec_mirror { struct timeval tv; size_t rc; void * ptr; };
 
@@ -180,6 +213,7 @@ pool_reset(struct mpool * M, void ** st, size_t size)
 	M->nallocs = M->nempties = 0;
 	M->state = 0;
 }
+#endif
 
 /* Cancel whatever is registered, run the exit handlers, release the direct heap. */
 static void
@@ -204,6 +238,10 @@ release_all(void)
 				LIB((void)events_network_cancel(s, w));
 				netreg[s][w] = 0;
 			}
+#ifdef HC_BLACKBOX
+	while (nhandlers > 0)
+		LIB((handlers[--nhandlers])());
+#else
 	LIB(events_timer_shutdown());
 	LIB(events_network_shutdown());
 	LIB(mpool_eventrec_atexit());
@@ -211,6 +249,7 @@ release_all(void)
 	pool_reset(&mpool_eventrec_rec, mpool_eventrec_static, 4096);
 	pool_reset(&mpool_eventq_rec, mpool_eventq_static, 4096);
 	minq = 32;
+#endif
 	if (H != NULL)
 		LIB(ptrheap_free(H));
 	H = NULL;
@@ -224,6 +263,9 @@ main(void)
 	size_t id, i;
 
 	setvbuf(stdout, NULL, _IOFBF, 1 << 16);
+#ifdef HC_BLACKBOX
+	hw_atexit_hook = record_handler;
+#endif
 	while (hc_next()) {
 		hw_begin();
 		nran = 0;
